@@ -155,12 +155,16 @@ impl Property for C09 {
     fn id(&self) -> &'static str {
         "C09"
     }
-    fn generate(&self, rng: &mut Rng, _tier: Tier) -> Box<dyn Case> {
+    fn generate(&self, rng: &mut Rng, tier: Tier) -> Box<dyn Case> {
         let mut cfg = GenCfg::swarm(rng);
         cfg.emph = Emph::Data;
         cfg.data = true;
         cfg.tron = false;
         cfg.size = *rng.pick(&[3usize, 5, 8, 12]);
+        if tier == Tier::Thorough && rng.pct(35) {
+            // the thorough tier also explores larger programs
+            cfg.size *= 2;
+        }
         cfg.stop = rng.pct(40);
         cfg.doubles = rng.pct(40);
         let prog = gen_program(rng, cfg);
@@ -349,7 +353,7 @@ impl Property for C10 {
     fn id(&self) -> &'static str {
         "C10"
     }
-    fn generate(&self, rng: &mut Rng, _tier: Tier) -> Box<dyn Case> {
+    fn generate(&self, rng: &mut Rng, tier: Tier) -> Box<dyn Case> {
         if rng.pct(2) {
             let lines: Vec<String> = match rng.below(4) {
                 0 => vec!["10 DEF FNR(X)=FNR(X)+1".into(), "20 PRINT FNR(1)".into()],
@@ -381,6 +385,10 @@ impl Property for C10 {
         cfg.input = rng.pct(40);
         cfg.errors = rng.pct(35);
         cfg.size = *rng.pick(&[3usize, 5, 8, 12]);
+        if tier == Tier::Thorough && rng.pct(35) {
+            // the thorough tier also explores larger programs
+            cfg.size *= 2;
+        }
         let prog = gen_program(rng, cfg.clone());
         let mut case = base_case(rng, prog, "C10");
         if rng.pct(10) {
@@ -509,7 +517,7 @@ impl Property for C11 {
     fn id(&self) -> &'static str {
         "C11"
     }
-    fn generate(&self, rng: &mut Rng, _tier: Tier) -> Box<dyn Case> {
+    fn generate(&self, rng: &mut Rng, tier: Tier) -> Box<dyn Case> {
         let mut cfg = GenCfg::swarm(rng);
         cfg.emph = Emph::Print;
         cfg.layout = true;
@@ -518,6 +526,10 @@ impl Property for C11 {
         cfg.input = rng.pct(40);
         cfg.errors = rng.pct(30);
         cfg.size = *rng.pick(&[2usize, 4, 6, 10]);
+        if tier == Tier::Thorough && rng.pct(35) {
+            // the thorough tier also explores larger programs
+            cfg.size *= 2;
+        }
         if cfg.tron {
             cfg.stop = false;
             cfg.end_mid = false;
@@ -611,7 +623,7 @@ impl Property for C17 {
     fn id(&self) -> &'static str {
         "C17"
     }
-    fn generate(&self, rng: &mut Rng, _tier: Tier) -> Box<dyn Case> {
+    fn generate(&self, rng: &mut Rng, tier: Tier) -> Box<dyn Case> {
         let mut cfg = GenCfg::swarm(rng);
         cfg.emph = Emph::Input;
         cfg.input = true;
@@ -620,6 +632,10 @@ impl Property for C17 {
         cfg.strings = rng.pct(85);
         cfg.doubles = rng.pct(40);
         cfg.size = *rng.pick(&[2usize, 3, 5, 8]);
+        if tier == Tier::Thorough && rng.pct(35) {
+            // the thorough tier also explores larger programs
+            cfg.size *= 2;
+        }
         let mut prog = gen_program(rng, cfg.clone());
         if rng.pct(12) {
             // targets whose type comes from DEFtype, with names that end in a digit
